@@ -117,6 +117,11 @@ def build_document(ex, spec):
     tokens, expected, parts_all = [], [], []
     ti = 0
     for gi, (subj, polist) in enumerate(spec["groups"]):
+        if subj == "PREFIX":   # a directive line between statements: re-binds a prefix from here on
+            pfx, ns = polist
+            env["prefixes"][pfx] = ns
+            tokens.append(("directive", "@prefix %s: <%s> ." % (pfx, ns)))
+            continue
         s_tok, s_exp, s_parts = _term(ex, "g%d_s" % gi, subj, env)
         tokens.append(("subj", s_tok))
         for pi, (pred, objs) in enumerate(polist):
@@ -182,7 +187,7 @@ def _lits(m):
 def _lit_positions(m):
     """[(token index, triple parts)] of literal objects."""
     roles = m["roles"]
-    spec_objs = [o for _, pol in m["spec"]["groups"] for _, objs in pol for o in objs]
+    spec_objs = [o for s_, pol in m["spec"]["groups"] if s_ != "PREFIX" for _, objs in pol for o in objs]
     lits = _lits(m)
     out, oi, li = [], 0, 0
     for i, r in enumerate(roles):
@@ -402,7 +407,14 @@ def skeletons(tier):
     g_two = [(PN1, [(PN1, [PN1])]), ({"t": "bn", "k": 1}, [(PN1, [_lit([F])])])]  # two statements
     g_abs = [({"t": "abs", "k": 1}, [({"t": "abs", "k": 1, "base": "http://x.y/p#"}, [{"t": "abs", "k": 1, "post": "/z"}])])]
     g_int = [(PN1, [(PN1, [{"t": "int", "text": "42"}]), (PN1, [_lit([F], "dt_xsd")])])]
-    for gname, groups in [("basic", g_basic), ("comma", g_comma), ("two", g_two), ("abs", g_abs), ("int", g_int)]:
+    for txt in ("-89", "+3", "0", "007"):
+        groups = [(PN1, [(PN1, [{"t": "int", "text": txt}, PN1])])]
+        out.append(("int/%s" % txt, dict(groups=groups, layout=_default_layout(groups))))
+        out.append(("int/%s/nl" % txt, dict(groups=groups, layout=[" ", " ", "\n", " ", " ", "\n"])))
+    g_rebind = [(PN1, [(PN1, [PN1])]), ("PREFIX", ("e", "http://g.h/")), (PN1, [(PN1, [PN1])])]
+    out.append(("rebind", dict(groups=g_rebind, layout=[" ", " ", " ", "\n", "\n", " ", " ", " ", "\n"])))
+    g_reuse = [(PN1, [(PN1, [PN1])]), (PN1, [(PN1, [PN1, PN1])])]                   # names may repeat across statements
+    for gname, groups in [("basic", g_basic), ("comma", g_comma), ("two", g_two), ("abs", g_abs), ("int", g_int), ("reuse", g_reuse)]:
         for lay in _variants(groups, 1 if tier == "quick" else 2):
             out.append(("lay/%s/%s" % (gname, _lname(lay)), dict(groups=groups, layout=list(lay), comment_k=1)))
     # literal forms in the default layout and with the literal last on its line
